@@ -94,6 +94,7 @@ def props_of_spec(sp):
     if not sp.qual.startswith('lemma_'):
         ps.add('C20')       # every function under contract carries the arm-parametricity obligation (MT3)
         ps.add('C19')       # ... and the attribute-universe obligation
+        ps.add('C04')       # ... and the hash-order obligation
     for cl in sp.requires + sp.ensures + sp.ensures_raises:
         if cl.props:
             ps |= set(cl.props)
